@@ -107,6 +107,7 @@ fn run_generic<M: mc::Model>(model: &M, replay: bool, a: &HashMap<String, String
         max_devs: 0,
         threads,
         budget_s: a.get("budget-s").map(|s| s.parse().unwrap()).unwrap_or(40.0),
+        max_rss_bytes: a.get("max-rss-gb").map(|s| s.parse::<usize>().unwrap()).unwrap_or(20) << 30,
         prop_mask: if prop == 0 { u32::MAX } else { 1 << prop },
         slab_bytes,
         emergency_out: a.get("out").cloned(),
@@ -149,6 +150,7 @@ fn main() {
                 max_devs: a.get("devs").map(|s| s.parse().unwrap()).unwrap_or(1),
                 threads,
                 budget_s: a.get("budget-s").map(|s| s.parse().unwrap()).unwrap_or(40.0),
+                max_rss_bytes: a.get("max-rss-gb").map(|s| s.parse::<usize>().unwrap()).unwrap_or(20) << 30,
                 prop_mask: if prop == 0 { u32::MAX } else { 1 << prop },
                 slab_bytes,
                 emergency_out: a.get("out").cloned(),
@@ -206,6 +208,7 @@ fn main() {
                 max_devs: 0,
                 threads,
                 budget_s: a.get("budget-s").map(|s| s.parse().unwrap()).unwrap_or(60.0),
+                max_rss_bytes: a.get("max-rss-gb").map(|s| s.parse::<usize>().unwrap()).unwrap_or(20) << 30,
                 prop_mask: if prop == 0 { u32::MAX } else { 1 << prop },
                 slab_bytes,
                 emergency_out: a.get("out").cloned(),
@@ -253,6 +256,7 @@ fn main() {
                 max_devs: a.get("devs").map(|s| s.parse().unwrap()).unwrap_or(0),
                 threads,
                 budget_s: a.get("budget-s").map(|s| s.parse().unwrap()).unwrap_or(40.0),
+                max_rss_bytes: a.get("max-rss-gb").map(|s| s.parse::<usize>().unwrap()).unwrap_or(20) << 30,
                 prop_mask: if prop == 0 { u32::MAX } else { 1 << prop },
                 slab_bytes,
                 emergency_out: a.get("out").cloned(),
